@@ -249,6 +249,7 @@ struct FnEmitter {
                 if (const auto *cat = Ctx.getAsConstantArrayType(vd->getType()))
                   J.attribute("arr", (int64_t)cat->getSize().getZExtValue());
                 if (vd->isStaticLocal()) J.attribute("static", true);
+                if (vd->hasExternalStorage()) J.attribute("extern", true);
                 if (vd->hasInit()) J.attribute("init", (int64_t)id(vd->getInit()));
               });
             }
